@@ -117,7 +117,7 @@ pub fn expect_label(l: L, label: &str, ex: &Exact) -> Exp {
             match label {
                 "checked" => Exp::Is(Out::O(if fits { Some(wr) } else { None })),
                 "saturating" => Exp::Is(Out::V(l.clamp(r))),
-                "wrapping" => Exp::Is(Out::V(wr)),
+                "wrapping" | "Wrapping" => Exp::Is(Out::V(wr)),
                 "overflowing" => Exp::Is(Out::F(wr, !fits)),
                 _ => {
                     if fits {
@@ -415,7 +415,7 @@ impl Engine for Arith {
         let asserted = |label: &str| -> bool {
             match prop {
                 "C01" => fits && !matches!(ex, Exact::ZeroDiv),
-                "C02" => FOUR_FORMS.contains(&label),
+                "C02" => FOUR_FORMS.contains(&label) || label == "Wrapping",
                 _ => true,
             }
         };
